@@ -76,6 +76,13 @@ def run(ctx):
                     elif bp is not None and not any((isinstance(x, ast.Attribute) and x.attr in ("values", "items", "get")) or
                                                      (isinstance(x, ast.Subscript) and "_jdd" in txt(x.value)) for x in ast.walk(rw)):
                         o.violated(sf, c, f"weights `{txt(rw)}` are not derived from the distribution's probabilities")
+                    elif isinstance(rp, (ast.ListComp, ast.GeneratorExp)) and len(rp.generators) == 1 and "_jdd" in txt(rp.generators[0].iter) and rp.generators[0].ifs and any(
+                            astx.names_in(c_) & (astx.names_in(rp.generators[0].target.elts[0]) if isinstance(rp.generators[0].target, ast.Tuple) else astx.names_in(rp.generators[0].target))
+                            for c_ in rp.generators[0].ifs):
+                        kf_ = next(c_ for c_ in rp.generators[0].ifs if astx.names_in(c_) & (astx.names_in(rp.generators[0].target.elts[0]) if isinstance(rp.generators[0].target, ast.Tuple)
+                                                                                             else astx.names_in(rp.generators[0].target)))
+                        o.violated(sf, c, f"the population is filtered by a test on the KEY (`{txt(kf_)[:60]}`): joint degrees the distribution gives weight to (e.g. the all-zero "
+                                          "tuple of isolated vertices) can never be drawn, the others are over-represented", shape_free=True)
                     else:
                         o.undecided(f"population `{txt(rp)}` / weights `{txt(rw)}` are not list(M.keys()) / list(M.values())", sf, c)
                 elif txt(bp["m"]) != txt(bw["m"]):
